@@ -706,6 +706,10 @@ def sweep_pairs():
         ("v3-vs-rejected-sibling", ob("CVSS3", v31), ob("CVSS3", v3inv)),
         ("v3-vs-v4", ob("CVSS3", v30), ob("CVSS4", v4a)),
         ("rh-vs-rh", ob("CVSS3", "7.4/" + v31, "rh"), ob("CVSS3", "10.0/CVSS:3.0/AV:N/AC:L/PR:N/UI:N/S:C/C:H/I:H/A:H", "rh")),
+        # a call that is REJECTED while the other one is under way (error paths that reset or restore shared state)
+        ("v2-vs-rejected-v2-missing-mandatory", ob("CVSS2", v2a), ob("CVSS2", "AV:N/AC:L/Au:N/C:P/I:P/E:F")),
+        ("v4-vs-rejected-v4", ob("CVSS4", b4a), ob("CVSS4", v4b.replace("/VC:H/", "/VC:Q/"))),
+        ("rh-vs-rh-score-mismatch", ob("CVSS3", "10.0/CVSS:3.0/AV:N/AC:L/PR:N/UI:N/S:C/C:H/I:H/A:H", "rh"), ob("CVSS3", "1.0/" + v31, "rh")),
         ("text-vs-text", {"op": "text", "s": "see " + v31 + " and " + v2a + " (" + v30 + ")"},
          {"op": "text", "s": v2b + "; " + v31b + " " + v2a}),
     ]
